@@ -24,6 +24,7 @@ CURATED = [
     ([], ":"),
     ([("a", "u/", ["a1", "a2"], ["u1/", "u2/"], None), ("b", "v/", ["b1"], ["v1/"], "x")], ":"),
     ([("é", "ü/", ["É"], [], None)], ":"),
+    ([("GO", "u/", [], [], None), ("go", "v/", ["Go"], ["V/"], None)], ":"),
 ]
 
 PFX_POOL = ["a", "A", "ab", "b", "", "c", "a1"]
